@@ -55,17 +55,17 @@ theorem sizeAlt_cons_cons (cfg : Cfg) (c d : GoNode) (ds : List GoNode) :
   simp
 
 /-- the highest tier the simulation lemma covers so far -/
-def maxTier : Nat := 4
+def maxTier : Nat := 5
 
 section main
 variable (W : World)
 
 /-- `Capture`: `Setmark; ⟨body⟩; Capturemark slot -1` around a body that delivers `rs` -/
-theorem capture_delivers {a i : Nat} {T S : List Int} {C : List (Nat × Nat × Nat)} {s : VMState} {g sz : Nat}
+theorem capture_delivers {a i : Nat} {T S : List Int} {v : Int} {C : List (Nat × Nat × Nat)} {s : VMState} {g sz : Nat}
     {body : Code} {rs : List St}
     (hcode : CodeAt W.X.p a ([i0 opSetmark] ++ body ++ [i2 opCapturemark (W.X.sl g : Int) (-1)]))
-    (hsz : codeLen body = sz) (hg : W.X.sl g < W.X.p.capsize) (he : Entry W.X a i T S C s)
-    (hbody : ∀ s1, Entry W.X (a + 1) i ((a : Int) :: T) ((i : Int) :: S) C s1 →
+    (hsz : codeLen body = sz) (hg : W.X.sl g < W.X.p.capsize) (he : Entry W.X a i (T ++ [v]) S C s)
+    (hbody : ∀ s1, Entry W.X (a + 1) i ((a : Int) :: (T ++ [v])) ((i : Int) :: S) C s1 →
       Delivers W.X (a + 1 + sz) ((a : Int) :: T) ((i : Int) :: S) ((i : Int) :: S) C rs s1) :
     Delivers W.X (a + 1 + sz + 3) T S S C
       (rs.map (fun st' => { st' with caps := st'.caps ++ [(g, min i st'.pos, max i st'.pos - min i st'.pos)] })) s := by
@@ -92,14 +92,14 @@ theorem capture_delivers {a i : Nat} {T S : List Int} {C : List (Nat × Nat × N
   · have := Delivers.append (X := W.X) (b := a + 1 + sz + 3) (T := T) (S := S) (S' := S) (C0 := C)
       (F := [(a : Int)]) (setmark_frame hset) (ys := []) _ s1 (by simpa using hbind) ?_
     · simpa using this
-    · intro s'' hf
-      exact setmark_back (by simpa using hf) hset
-  · intro r _ F s' hF he'
-    refine ⟨[((a + 1 + sz : Nat) : Int), (i : Int)], capturemark_frame hcm _, ?_, ?_⟩
+    · intro s'' v' hf
+      exact Delivers.fail (v := v') (setmark_back (by simpa using hf) hset)
+  · intro r _ F s' v' hF he'
+    refine Delivers.cons (v := v') [((a + 1 + sz : Nat) : Int), (i : Int)] (capturemark_frame hcm _) ?_ ?_
     · have := capturemark_leads he' hcm hg hend
       simpa using this
-    · intro s'' hf
-      exact capturemark_back (by simpa using hf) hcm
+    · intro s'' v'' hf
+      exact Delivers.fail (v := v'') (capturemark_back (by simpa using hf) hcm)
 
 variable (hWk : W.k ≤ maxTier)
 include hWk
@@ -110,21 +110,27 @@ mutual
 theorem node_delivers : ∀ (n : GoNode) (a : Nat) (tb : Tables) (pat : Pat),
     tier n ≤ W.k → toPat W.TPx false n = some pat → n.ok = true → capsOk W.cfg W.X.p.capsize n = true →
     boundsOk n = true → CodeAt W.X.p a (emitNode W.cfg a tb n).1 → TabExt (emitNode W.cfg a tb n).2 W.fin →
-    ∀ (i : Nat) (T S : List Int) (C : List (Nat × Nat × Nat)) (s : VMState), St.wf W.X.se.n ⟨i, C⟩ → T ≠ [] →
-      Entry W.X a i T S C s → Delivers W.X (a + size W.cfg n) T S S C (m W.X.se pat false ⟨i, C⟩) s
-  | .empty, a, tb, pat, _, hp, _, _, _, _, _, i, T, S, C, s, _, _, he => by
+    ∀ (i : Nat) (T S : List Int) (v : Int) (C : List (Nat × Nat × Nat)) (s : VMState), St.wf W.X.se.n ⟨i, C⟩ →
+      Entry W.X a i (T ++ [v]) S C s → Delivers W.X (a + size W.cfg n) T S S C (m W.X.se pat false ⟨i, C⟩) s
+  | .empty, a, tb, pat, _, hp, _, _, _, _, _, i, T, S, v, C, s, _, he => by
     simp only [toPat, Option.some.injEq] at hp
     subst hp
     simp only [size, Nat.add_zero, m]
-    exact Delivers.single (Leads.here he) rfl
-  | .bare t, a, tb, pat, ht, hp, _, _, _, hcode, _, i, T, S, C, s, hwf, _, he => by
+    exact Delivers.single (v := v) (Leads.here he) rfl
+  | .bare t, a, tb, pat, ht, hp, _, _, _, hcode, _, i, T, S, v, C, s, hwf, he => by
     simp only [toPat] at hp
     simp only [emitNode] at hcode
-    have hne : ¬ t = opUpdateBumpalong := by
-      intro h; subst h; have ht := Nat.le_trans ht hWk; simp [tier, maxTier] at ht
-    have := bare_delivers W.hrel hwf.1 hp hne he hcode.instr (by simpa using hcode.fetch_end)
-    simpa [size] using this
-  | .char t rtl ci ch, a, tb, pat, _, hp, hok, _, _, hcode, _, i, T, S, C, s, hwf, _, he => by
+    by_cases hne : t = opUpdateBumpalong
+    · subst hne
+      have hpe : pat = .empty := by
+        have : bareToPat W.TPx opUpdateBumpalong = some .empty := rfl
+        rw [this] at hp; exact (Option.some.inj hp).symm
+      subst hpe
+      have := updatebumpalong_delivers he hcode.instr (by simpa using hcode.fetch_end)
+      simpa [size, m] using this
+    · have := bare_delivers W.hrel hwf.1 hp hne he hcode.instr (by simpa using hcode.fetch_end)
+      simpa [size] using this
+  | .char t rtl ci ch, a, tb, pat, _, hp, hok, _, _, hcode, _, i, T, S, v, C, s, hwf, he => by
     simp only [toPat] at hp
     simp only [emitNode] at hcode
     split at hp
@@ -157,7 +163,7 @@ theorem node_delivers : ∀ (n : GoNode) (a : Nat) (tb : Tables) (pat : Pat),
             (predOk_notone W.X ch hch) hf
         · cases hp
     · cases hp
-  | .set rtl ci pl, a, tb, pat, _, hp, _, _, _, hcode, hext, i, T, S, C, s, hwf, _, he => by
+  | .set rtl ci pl, a, tb, pat, _, hp, _, _, _, hcode, hext, i, T, S, v, C, s, hwf, he => by
     simp only [toPat] at hp
     simp only [emitNode, setKey_eq] at hcode hext
     split at hp
@@ -187,7 +193,7 @@ theorem node_delivers : ∀ (n : GoNode) (a : Nat) (tb : Tables) (pat : Pat),
         exact caseChar_delivers W.hrel hwf.1 he hia rfl (by simp only [body, hop, modeOf, hb, hb2]) hrtl
           (predOk_set W.hrel W.hnsets hget hrd) hf
     · cases hp
-  | .multi rtl ci str, a, tb, pat, _, hp, _, _, _, hcode, hext, i, T, S, C, s, hwf, _, he => by
+  | .multi rtl ci str, a, tb, pat, _, hp, _, _, _, hcode, hext, i, T, S, v, C, s, hwf, he => by
     simp only [toPat] at hp
     simp only [emitNode, strKey_eq] at hcode hext
     split at hp
@@ -205,9 +211,9 @@ theorem node_delivers : ∀ (n : GoNode) (a : Nat) (tb : Tables) (pat : Pat),
       simp only [size]
       exact multi_delivers W.hrel hwf.1 he hia hget hf
     · cases hp
-  | .ref rtl ci g, a, tb, pat, ht, _, _, _, _, _, _, i, T, S, C, s, _, _, _ => by
+  | .ref rtl ci g, a, tb, pat, ht, _, _, _, _, _, _, i, T, S, v, C, s, _, _ => by
     have ht := Nat.le_trans ht hWk; simp [tier, maxTier] at ht
-  | .charloop t rtl ci ch lo hi, a, tb, pat, _, hp, hok, _, hbd, hcode, _, i, T, S, C, s, hwf, _, he => by
+  | .charloop t rtl ci ch lo hi, a, tb, pat, _, hp, hok, _, hbd, hcode, _, i, T, S, v, C, s, hwf, he => by
     simp only [toPat] at hp
     simp only [emitNode] at hcode
     split at hp
@@ -229,7 +235,7 @@ theorem node_delivers : ∀ (n : GoNode) (a : Nat) (tb : Tables) (pat : Pat),
         exact loopnode_delivers W.hrel W.hlen hwf.1 he (List.mem_append_left _ hty) h2.symm (Or.inr (Or.inl ⟨rfl, rfl⟩)) h0 hmn
           hn hcode (fun _ => predOk_notone W.X ch hch)
     · cases hp
-  | .setloop t rtl ci pl lo hi, a, tb, pat, _, hp, hok, _, hbd, hcode, hext, i, T, S, C, s, hwf, _, he => by
+  | .setloop t rtl ci pl lo hi, a, tb, pat, _, hp, hok, _, hbd, hcode, hext, i, T, S, v, C, s, hwf, he => by
     simp only [toPat] at hp
     simp only [emitNode, setKey_eq] at hcode hext
     split at hp
@@ -257,7 +263,7 @@ theorem node_delivers : ∀ (n : GoNode) (a : Nat) (tb : Tables) (pat : Pat),
           exact get_of_ext (internKey_get tb.sets pl)
         exact predOk_set W.hrel W.hnsets hget hrd
     · cases hp
-  | .concat cs, a, tb, pat, ht, hp, hok, hcaps, hbd, hcode, hext, i, T, S, C, s, hwf, hT, he => by
+  | .concat cs, a, tb, pat, ht, hp, hok, hcaps, hbd, hcode, hext, i, T, S, v, C, s, hwf, he => by
     simp only [toPat] at hp
     cases hps : toPatList W.TPx false cs with
     | none => rw [hps] at hp; cases hp
@@ -268,8 +274,8 @@ theorem node_delivers : ∀ (n : GoNode) (a : Nat) (tb : Tables) (pat : Pat),
       simp only [GoNode.ok, Bool.and_eq_true] at hok
       exact list_delivers cs a tb ps (by simpa [tier] using ht) hps hok.2 (by simpa [capsOk] using hcaps)
         (by simpa [boundsOk] using hbd) (by simpa [emitNode] using hcode) (by simpa [emitNode] using hext)
-        i T S C s hwf hT he
-  | .alt cs, a, tb, pat, ht, hp, hok, hcaps, hbd, hcode, hext, i, T, S, C, s, hwf, hT, he => by
+        i T S v C s hwf he
+  | .alt cs, a, tb, pat, ht, hp, hok, hcaps, hbd, hcode, hext, i, T, S, v, C, s, hwf, he => by
     simp only [toPat] at hp
     cases hps : toPatList W.TPx false cs with
     | none => rw [hps] at hp; cases hp
@@ -281,8 +287,8 @@ theorem node_delivers : ∀ (n : GoNode) (a : Nat) (tb : Tables) (pat : Pat),
       have hne : cs ≠ [] := by intro h; subst h; simp at hok
       exact alt_delivers cs a (a + sizeAlt W.cfg cs) tb ps hne rfl (by simpa [tier] using ht) hps hok.2
         (by simpa [capsOk] using hcaps) (by simpa [boundsOk] using hbd) (by simpa [emitNode] using hcode)
-        (by simpa [emitNode] using hext) i T S C s hwf hT he
-  | .loop lzy lo hi c, a, tb, pat, ht, hp, hok, hcaps, hbd, hcode, hext, i, T, S, C, s, hwf, hT, he => by
+        (by simpa [emitNode] using hext) i T S v C s hwf he
+  | .loop lzy lo hi c, a, tb, pat, ht, hp, hok, hcaps, hbd, hcode, hext, i, T, S, v, C, s, hwf, he => by
     simp only [toPat] at hp
     cases hpc : toPat W.TPx false c with
     | none => rw [hpc] at hp; cases hp
@@ -298,12 +304,12 @@ theorem node_delivers : ∀ (n : GoNode) (a : Nat) (tb : Tables) (pat : Pat),
       have := gloopnode_delivers W.hrel hn (sz := size W.cfg c) (f := m W.X.se pc false) (d := false) h0 hmn hnm hcode
         (emitNode_size _ _ _ _) (fun st st' h => m_dir _ pc false st st' h)
         (fun st hst st' h => m_wf _ pc false st hst st' h)
-        (fun p C' T' S' s' hwf' hT' he' => node_delivers c (a + loopHeadLen lo hi) tb pc ht.2 hpc
-          (by simpa [GoNode.ok] using hok) (by simpa [capsOk] using hcaps) hbc (loop_body_codeAt hcode) hext p T' S' C' s'
-          hwf' hT' he') hwf he
+        (fun p C' T' S' v' s' hwf' he' => node_delivers c (a + loopHeadLen lo hi) tb pc ht.2 hpc
+          (by simpa [GoNode.ok] using hok) (by simpa [capsOk] using hcaps) hbc (loop_body_codeAt hcode) hext p T' S' v' C' s'
+          hwf' he') hwf he
       refine this.cast (by simp only [size]; omega) ?_
       simp only [m]
-  | .capture g n c, a, tb, pat, ht, hp, hok, hcaps, hbd, hcode, hext, i, T, S, C, s, hwf, hT, he => by
+  | .capture g n c, a, tb, pat, ht, hp, hok, hcaps, hbd, hcode, hext, i, T, S, v, C, s, hwf, he => by
     simp only [toPat] at hp
     split at hp
     · next hc =>
@@ -331,18 +337,18 @@ theorem node_delivers : ∀ (n : GoNode) (a : Nat) (tb : Tables) (pat : Pat),
         have := capture_delivers W (g := g.toNat) (sz := size W.cfg c) hcode (emitNode_size _ _ _ _) hslt he
           (rs := m W.X.se pc false ⟨i, C⟩) (fun s1 he1 =>
             node_delivers c (a + 1) tb pc (by simpa [tier] using ht) hpc (by simpa [GoNode.ok] using hok) hcaps.2
-              (by simpa [boundsOk] using hbd) ((hcode.left').right.cast (by simp) rfl) hext i _ _ C s1 hwf
-              (by simp) he1)
+              (by simpa [boundsOk] using hbd) ((hcode.left').right.cast (by simp) rfl) hext i ((a : Int) :: T) _ v C s1 hwf
+              he1)
         refine this.cast (by simp only [size, hec, if_true]; omega) ?_
         simp only [m]
     · cases hp
-  | .group c, a, tb, pat, ht, hp, hok, hcaps, hbd, hcode, hext, i, T, S, C, s, hwf, hT, he => by
+  | .group c, a, tb, pat, ht, hp, hok, hcaps, hbd, hcode, hext, i, T, S, v, C, s, hwf, he => by
     simp only [toPat] at hp
     simp only [emitNode] at hcode hext
     simp only [size]
     exact node_delivers c a tb pat (by simpa [tier] using ht) hp (by simpa [GoNode.ok] using hok)
-      (by simpa [capsOk] using hcaps) (by simpa [boundsOk] using hbd) hcode hext i T S C s hwf hT he
-  | .poslook c, a, tb, pat, ht, hp, hok, hcaps, hbd, hcode, hext, i, T, S, C, s, hwf, hT, he => by
+      (by simpa [capsOk] using hcaps) (by simpa [boundsOk] using hbd) hcode hext i T S v C s hwf he
+  | .poslook c, a, tb, pat, ht, hp, hok, hcaps, hbd, hcode, hext, i, T, S, v, C, s, hwf, he => by
     simp only [tier] at ht
     split at ht
     · next hdir =>
@@ -355,16 +361,16 @@ theorem node_delivers : ∀ (n : GoNode) (a : Nat) (tb : Tables) (pat : Pat),
         simp only [Option.map_some, Option.some.injEq] at hp
         subst hp
         simp only [emitNode] at hcode hext
-        have := poslook_delivers (sz := size W.cfg c) (rs := m W.X.se pc false ⟨i, C⟩) W.hrel hwf.1 hT hcode
+        have := poslook_delivers (sz := size W.cfg c) (rs := m W.X.se pc false ⟨i, C⟩) W.hrel hwf.1 hcode
           (emitNode_size _ _ _ _) he (fun r hr => m_caps_ext W.X.se pc false ⟨i, C⟩ r hr)
           (fun s1 he1 => node_delivers c (a + 2) tb pc (by simp only [Nat.max_le] at ht; exact ht.2) hpc
             (by simpa [GoNode.ok] using hok) (by simpa [capsOk] using hcaps) (by simpa [boundsOk] using hbd)
-            ((hcode.left').right.cast (by simp) rfl) hext i _ _ C s1 hwf (by simp) he1)
+            ((hcode.left').right.cast (by simp) rfl) hext i (((a + 1 : Nat) : Int) :: (a : Int) :: T) _ v C s1 hwf he1)
         refine this.cast (by simp only [size]; omega) ?_
         simp only [m]
         cases m W.X.se pc false ⟨i, C⟩ <;> simp [posLookRes]
     · have ht := Nat.le_trans ht hWk; simp only [maxTier, Nat.max_le] at ht; omega
-  | .neglook c, a, tb, pat, ht, hp, hok, hcaps, hbd, hcode, hext, i, T, S, C, s, hwf, hT, he => by
+  | .neglook c, a, tb, pat, ht, hp, hok, hcaps, hbd, hcode, hext, i, T, S, v, C, s, hwf, he => by
     simp only [tier] at ht
     split at ht
     · next hdir =>
@@ -377,16 +383,16 @@ theorem node_delivers : ∀ (n : GoNode) (a : Nat) (tb : Tables) (pat : Pat),
         simp only [Option.map_some, Option.some.injEq] at hp
         subst hp
         simp only [emitNode] at hcode hext
-        have := neglook_delivers (sz := size W.cfg c) (rs := m W.X.se pc false ⟨i, C⟩) hT hcode
+        have := neglook_delivers (sz := size W.cfg c) (rs := m W.X.se pc false ⟨i, C⟩) hcode
           (emitNode_size _ _ _ _) he (fun r hr => m_caps_ext W.X.se pc false ⟨i, C⟩ r hr)
           (fun s1 he1 => node_delivers c (a + 3) tb pc (by simp only [Nat.max_le] at ht; exact ht.2) hpc
             (by simpa [GoNode.ok] using hok) (by simpa [capsOk] using hcaps) (by simpa [boundsOk] using hbd)
-            ((hcode.left').right.cast (by simp) rfl) hext i _ _ C s1 hwf (by simp) he1)
+            ((hcode.left').right.cast (by simp) rfl) hext i (((a + 1 : Nat) : Int) :: (i : Int) :: (a : Int) :: T) _ v C s1 hwf he1)
         refine this.cast (by simp only [size]; omega) ?_
         simp only [m]
         cases m W.X.se pc false ⟨i, C⟩ <;> simp [negLookRes]
     · have ht := Nat.le_trans ht hWk; simp only [maxTier, Nat.max_le] at ht; omega
-  | .atomic c, a, tb, pat, ht, hp, hok, hcaps, hbd, hcode, hext, i, T, S, C, s, hwf, hT, he => by
+  | .atomic c, a, tb, pat, ht, hp, hok, hcaps, hbd, hcode, hext, i, T, S, v, C, s, hwf, he => by
     simp only [toPat] at hp
     cases hpc : toPat W.TPx false c with
     | none => rw [hpc] at hp; cases hp
@@ -396,36 +402,36 @@ theorem node_delivers : ∀ (n : GoNode) (a : Nat) (tb : Tables) (pat : Pat),
       subst hp
       simp only [emitNode] at hcode hext
       simp only [tier, Nat.max_le] at ht
-      have := atomic_delivers (sz := size W.cfg c) (rs := m W.X.se pc false ⟨i, C⟩) hT hcode
+      have := atomic_delivers (sz := size W.cfg c) (rs := m W.X.se pc false ⟨i, C⟩) hcode
         (emitNode_size _ _ _ _) he (fun r hr => m_caps_ext W.X.se pc false ⟨i, C⟩ r hr)
         (fun s1 he1 => node_delivers c (a + 1) tb pc ht.2 hpc
           (by simpa [GoNode.ok] using hok) (by simpa [capsOk] using hcaps) (by simpa [boundsOk] using hbd)
-          ((hcode.left').right.cast (by simp) rfl) hext i _ _ C s1 hwf (by simp) he1)
+          ((hcode.left').right.cast (by simp) rfl) hext i ((a : Int) :: T) _ v C s1 hwf he1)
       refine this.cast (by simp only [size]; omega) ?_
       simp only [m]
-  | .backrefcond1 g y, a, tb, pat, ht, _, _, _, _, _, _, i, T, S, C, s, _, _, _ => by
+  | .backrefcond1 g y, a, tb, pat, ht, _, _, _, _, _, _, i, T, S, v, C, s, _, _ => by
     have ht := Nat.le_trans ht hWk; simp [tier, maxTier] at ht; omega
-  | .backrefcond2 g y n, a, tb, pat, ht, _, _, _, _, _, _, i, T, S, C, s, _, _, _ => by
+  | .backrefcond2 g y n, a, tb, pat, ht, _, _, _, _, _, _, i, T, S, v, C, s, _, _ => by
     have ht := Nat.le_trans ht hWk; simp [tier, maxTier] at ht; omega
-  | .exprcond2 c y, a, tb, pat, ht, _, _, _, _, _, _, i, T, S, C, s, _, _, _ => by
+  | .exprcond2 c y, a, tb, pat, ht, _, _, _, _, _, _, i, T, S, v, C, s, _, _ => by
     have ht := Nat.le_trans ht hWk; simp [tier, maxTier] at ht; omega
-  | .exprcond3 c y n, a, tb, pat, ht, _, _, _, _, _, _, i, T, S, C, s, _, _, _ => by
+  | .exprcond3 c y n, a, tb, pat, ht, _, _, _, _, _, _, i, T, S, v, C, s, _, _ => by
     have ht := Nat.le_trans ht hWk; simp [tier, maxTier] at ht; omega
-  | .other t, a, tb, pat, ht, _, _, _, _, _, _, i, T, S, C, s, _, _, _ => by
+  | .other t, a, tb, pat, ht, _, _, _, _, _, _, i, T, S, v, C, s, _, _ => by
     have ht := Nat.le_trans ht hWk; simp [tier, maxTier] at ht
 /-- `Concatenate`: the children one after the other -/
 theorem list_delivers : ∀ (cs : List GoNode) (a : Nat) (tb : Tables) (ps : List Pat),
     tierList cs ≤ W.k → toPatList W.TPx false cs = some ps → okList cs = true →
     capsOkList W.cfg W.X.p.capsize cs = true → boundsOkList cs = true →
     CodeAt W.X.p a (emitList W.cfg a tb cs).1 → TabExt (emitList W.cfg a tb cs).2 W.fin →
-    ∀ (i : Nat) (T S : List Int) (C : List (Nat × Nat × Nat)) (s : VMState), St.wf W.X.se.n ⟨i, C⟩ → T ≠ [] →
-      Entry W.X a i T S C s → Delivers W.X (a + sizeList W.cfg cs) T S S C (m W.X.se (nestSeq ps) false ⟨i, C⟩) s
-  | [], a, tb, ps, _, hp, _, _, _, _, _, i, T, S, C, s, _, _, he => by
+    ∀ (i : Nat) (T S : List Int) (v : Int) (C : List (Nat × Nat × Nat)) (s : VMState), St.wf W.X.se.n ⟨i, C⟩ →
+      Entry W.X a i (T ++ [v]) S C s → Delivers W.X (a + sizeList W.cfg cs) T S S C (m W.X.se (nestSeq ps) false ⟨i, C⟩) s
+  | [], a, tb, ps, _, hp, _, _, _, _, _, i, T, S, v, C, s, _, he => by
     simp only [toPatList, Option.some.injEq] at hp
     subst hp
     simp only [sizeList, Nat.add_zero, nestSeq, nest, m]
-    exact Delivers.single (Leads.here he) rfl
-  | c :: cs, a, tb, ps, ht, hp, hok, hcaps, hbd, hcode, hext, i, T, S, C, s, hwf, hT, he => by
+    exact Delivers.single (v := v) (Leads.here he) rfl
+  | c :: cs, a, tb, ps, ht, hp, hok, hcaps, hbd, hcode, hext, i, T, S, v, C, s, hwf, he => by
     simp only [toPatList] at hp
     cases hpc : toPat W.TPx false c with
     | none => rw [hpc] at hp; cases hp
@@ -442,25 +448,25 @@ theorem list_delivers : ∀ (cs : List GoNode) (a : Nat) (tb : Tables) (ps : Lis
         simp only [tierList, Nat.max_le] at ht
         simp only [emitList] at hcode hext
         have hext1 : TabExt (emitNode W.cfg a tb c).2 W.fin := (emitList_ext W.cfg cs _ _).trans hext
-        have h1 := node_delivers c a tb pc ht.1 hpc hok.1 hcaps.1 hbd.1 hcode.left' hext1 i T S C s hwf hT he
+        have h1 := node_delivers c a tb pc ht.1 hpc hok.1 hcaps.1 hbd.1 hcode.left' hext1 i T S v C s hwf he
         rw [m_nestSeq_cons]
         have hcode2 : CodeAt W.X.p (a + size W.cfg c) (emitList W.cfg (a + size W.cfg c) (emitNode W.cfg a tb c).2 cs).1 :=
           hcode.right.cast (by rw [emitNode_size]) rfl
         refine (Delivers.bind (X := W.X) (b := a + size W.cfg c + sizeList W.cfg cs) _ s h1 ?_).cast
           (by simp only [sizeList]; omega) rfl
-        intro r hr F s' hF he'
+        intro r hr F s' v' hF he'
         have hwf' := m_wf W.X.se pc false ⟨i, C⟩ hwf r hr
-        exact list_delivers cs (a + size W.cfg c) _ ps' ht.2 hps hok.2 hcaps.2 hbd.2 hcode2 hext r.pos (F ++ T) S r.caps s'
-          hwf' (by simp [hT]) he'
+        exact list_delivers cs (a + size W.cfg c) _ ps' ht.2 hps hok.2 hcaps.2 hbd.2 hcode2 hext r.pos (F ++ T) S v' r.caps s'
+          hwf' he'
 /-- `Alternate`: `Lazybranch next; ⟨branch⟩; Goto end` for every branch but the last -/
 theorem alt_delivers : ∀ (cs : List GoNode) (a fin : Nat) (tb : Tables) (ps : List Pat), cs ≠ [] →
     fin = a + sizeAlt W.cfg cs → tierList cs ≤ W.k → toPatList W.TPx false cs = some ps → okList cs = true →
     capsOkList W.cfg W.X.p.capsize cs = true → boundsOkList cs = true →
     CodeAt W.X.p a (emitAlt W.cfg a fin tb cs).1 → TabExt (emitAlt W.cfg a fin tb cs).2 W.fin →
-    ∀ (i : Nat) (T S : List Int) (C : List (Nat × Nat × Nat)) (s : VMState), St.wf W.X.se.n ⟨i, C⟩ → T ≠ [] →
-      Entry W.X a i T S C s → Delivers W.X fin T S S C (m W.X.se (nestAlt ps) false ⟨i, C⟩) s
+    ∀ (i : Nat) (T S : List Int) (v : Int) (C : List (Nat × Nat × Nat)) (s : VMState), St.wf W.X.se.n ⟨i, C⟩ →
+      Entry W.X a i (T ++ [v]) S C s → Delivers W.X fin T S S C (m W.X.se (nestAlt ps) false ⟨i, C⟩) s
   | [], a, fin, tb, ps, hne, _, _, _, _, _, _, _, _, i, T, S, C, s, _, _, _ => absurd rfl hne
-  | c :: cs, a, fin, tb, ps, _, hfin, ht, hp, hok, hcaps, hbd, hcode, hext, i, T, S, C, s, hwf, hT, he => by
+  | c :: cs, a, fin, tb, ps, _, hfin, ht, hp, hok, hcaps, hbd, hcode, hext, i, T, S, v, C, s, hwf, he => by
     simp only [toPatList] at hp
     cases hpc : toPat W.TPx false c with
     | none => rw [hpc] at hp; cases hp
@@ -483,7 +489,7 @@ theorem alt_delivers : ∀ (cs : List GoNode) (a fin : Nat) (tb : Tables) (ps : 
           simp only [sizeAlt, List.isEmpty_nil, if_true] at hfin
           subst hfin
           simp only [nestAlt, nest]
-          exact node_delivers c a tb pc ht.1 hpc hok.1 hcaps.1 hbd.1 hcode hext i T S C s hwf hT he
+          exact node_delivers c a tb pc ht.1 hpc hok.1 hcaps.1 hbd.1 hcode hext i T S v C s hwf he
         | cons d ds =>
           rw [emitAlt_cons_cons] at hcode hext
           rw [sizeAlt_cons_cons] at hfin
@@ -519,16 +525,16 @@ theorem alt_delivers : ∀ (cs : List GoNode) (a fin : Nat) (tb : Tables) (ps : 
           have hfr : Framed W.X.p [(a : Int), (i : Int)] := lazybranch_frame hlb _
           refine Delivers.append (Sm := S) (C1 := C) (F := [(a : Int), (i : Int)]) hfr (m W.X.se pc false ⟨i, C⟩) s1 ?_ ?_
           · have hn := node_delivers c (a + 2) tb pc ht.1 hpc hok.1 hcaps.1 hbd.1 hc2 hext1 i
-              ([(a : Int), (i : Int)] ++ T) S C s1 hwf (by simp) (by simpa using he1)
+              ([(a : Int), (i : Int)] ++ T) S v C s1 hwf (by simpa using he1)
             have := Delivers.bind (X := W.X) (b := fin) (S' := S) (g := fun r => [r]) _ s1 hn ?_
             · rwa [flatMap_singleton_id] at this
-            · intro r _ F s' _ he'
-              exact Delivers.single (goto_leads he' hgo hffin) rfl
-          · intro s'' hf
-            obtain ⟨s2, hr2, he2⟩ := lazybranch_back (by simpa using hf) hlb hfnext
+            · intro r _ F s' v' _ he'
+              exact Delivers.single (v := v') (goto_leads he' hgo hffin) rfl
+          · intro s'' v' hf
+            obtain ⟨s2, hr2, he2⟩ := lazybranch_back (T := T ++ [v']) (by simpa using hf) hlb hfnext
             refine Delivers.of_reach hr2 ?_
             exact alt_delivers (d :: ds) (a + 2 + size W.cfg c + 2) fin _ ps' (by simp) (by rw [hfin]; omega) ht.2 hps
-              hok.2 hcaps.2 hbd.2 hc4 hext i T S C s2 hwf hT he2
+              hok.2 hcaps.2 hbd.2 hc4 hext i T S v' C s2 hwf he2
 end
 
 end main
